@@ -833,7 +833,7 @@ def rule_echo(run):
                      'from the SIMUL handler, the first section), and read() never re-evaluates it: a file written with echoed extra-precision '
                      'sections is read back as not echoed, and the next write drops ROCKS/ELEME/CONNE/GENER from the main file'
                      % (m.short, norm(st)[:90]), where=m.where(st))
-    elif late and any(isinstance(c, ast.Call) and isinstance(c.func, ast.Name) and c.func.id == 'all' for c in ast.walk(late[-1].value)):
+    elif late and _universal(late[-1].value):
         # the writer leaves a section out of the main file for reasons of its own besides the echo flag (ELEME / CONNE go to a
         # separate MESH file), so "echoed" is "some extra-precision section is also in the main file", not "all of them are"
         run.violated(key, 'the echo flag is `%s`: universal over the extra-precision sections. write() keeps the mesh sections out of the main '
@@ -855,6 +855,20 @@ def rule_memo(run):
     memo_rule(run, ['t2data'])
 
 
+def _universal(e):
+    """is the reduction in e universal over its items?  all(P) / not any(not P) are; any(P) / not all(not P) are not; None-safe: False
+    when no reduction is found"""
+    for c in ast.walk(e):
+        if isinstance(c, ast.Call) and isinstance(c.func, ast.Name) and c.func.id in ('all', 'any') and c.args:
+            elt = c.args[0].elt if isinstance(c.args[0], (ast.ListComp, ast.GeneratorExp)) else None
+            neg_in = isinstance(elt, ast.UnaryOp) and isinstance(elt.op, ast.Not) or \
+                (isinstance(elt, ast.Compare) and len(elt.ops) == 1 and isinstance(elt.ops[0], ast.NotIn))
+            neg_out = any(isinstance(u, ast.UnaryOp) and isinstance(u.op, ast.Not) and u.operand is c for u in ast.walk(e))
+            if elt is None: return False
+            return (c.func.id == 'all') != (neg_in and neg_out) if (neg_in == neg_out) else False
+    return False
+
+
 def rule_gentab(run):
     run.rule('GENTAB', 'the generator line is followed by time / rate / enthalpy tables for the same generator types in write_generator() as '
              'read_generator() expects: the type tests standing next to `ltab` in the two functions are the same set', floor=1)
@@ -866,13 +880,22 @@ def rule_gentab(run):
             names = set(x.id for x in ast.walk(n.test) if isinstance(x, ast.Name)) | set(x.attr for x in ast.walk(n.test) if isinstance(x, ast.Attribute))
             if 'ltab' not in names: continue
             tests = set()
-            for c in ast.walk(n.test):
-                if isinstance(c, ast.Compare) and len(c.ops) == 1 and isinstance(c.comparators[0], (ast.Constant, ast.List, ast.Tuple, ast.Set)) and \
-                   ('type' in norm(c.left).lower()):
-                    tests.add((type(c.ops[0]).__name__, norm(c.comparators[0])))
-                if isinstance(c, ast.Call) and isinstance(c.func, ast.Attribute) and c.func.attr in ('startswith', 'endswith') and 'type' in norm(c.func.value).lower():
-                    neg = any(isinstance(u, ast.UnaryOp) and isinstance(u.op, ast.Not) and u.operand is c for u in ast.walk(n.test))
-                    tests.add((('not ' if neg else '') + c.func.attr, norm(c.args[0]) if c.args else ''))
+            def atoms(t, pos):
+                if isinstance(t, ast.UnaryOp) and isinstance(t.op, ast.Not): atoms(t.operand, not pos); return
+                if isinstance(t, ast.BoolOp):
+                    for v in t.values: atoms(v, pos)
+                    return
+                if isinstance(t, ast.Compare) and len(t.ops) == 1 and 'type' in norm(t.left).lower():
+                    op, rhs = type(t.ops[0]), t.comparators[0]
+                    if op in (ast.In, ast.NotIn) and isinstance(rhs, (ast.List, ast.Tuple, ast.Set)) and all(isinstance(x, ast.Constant) for x in rhs.elts):
+                        vals = sorted(repr(x.value) for x in rhs.elts); eq = (op is ast.In)
+                    elif op in (ast.Eq, ast.NotEq) and isinstance(rhs, ast.Constant):
+                        vals = [repr(rhs.value)]; eq = (op is ast.Eq)
+                    else: return
+                    tests.add(('is one of' if eq == pos else 'is none of', ' '.join(vals)))
+                if isinstance(t, ast.Call) and isinstance(t.func, ast.Attribute) and t.func.attr in ('startswith', 'endswith') and 'type' in norm(t.func.value).lower():
+                    tests.add((('' if pos else 'not ') + t.func.attr, norm(t.args[0]) if t.args else ''))
+            atoms(n.test, True)
             out = (n, tests) if out is None else out
         return out
     rd, wr = prog.func(T + 'read_generator'), prog.func(T + 'write_generator')
